@@ -163,8 +163,8 @@ def main():
     res = ck.step_generate('Gen_C11', TARGETS)
     if res is not None:
         ck.step_prove('P_C11')
-    n = 1500 if ck.thorough() else 60
-    goals = run_cases(ck, res, n, 20 if ck.thorough() else 6)
+    n = 7500 if ck.thorough() else 60
+    goals = run_cases(ck, res, n, 60 if ck.thorough() else 6)
     if res is not None:
         ck.step_interval_goals('corr', goals)
     if ck.broken and not ck.failures:
